@@ -414,6 +414,7 @@ func recoverSign(ctx context.Context, signc chan *vss.Signature, suite suites.Su
 					t := len(sign.Content) - addrLen
 					if t < 0 {
 						errc <- errors.New("length of content less than 0")
+						continue
 					}
 
 					queryResult := make([]byte, t)
